@@ -22,6 +22,49 @@ func TestVerifC14HS(t *testing.T) {
 	o := vOpen(t, "C14hs")
 	defer o.Close()
 	const name = "revoked.c14.example"
+	// the replacement comes from a FALL-BACK issuer with shorter lifetimes (its certificate is issued
+	// later but expires earlier than the revoked one): it is the replacement all the same
+	for _, reason := range []int{acme.ReasonUnspecified, acme.ReasonKeyCompromise} {
+		synctest.Test(t, func(t *testing.T) {
+			st := vNewMem()
+			ca := vNewCA("c14hs")
+			issA, issB := vNewIssuer("vi", ca), vNewIssuer("vi-fallback", ca)
+			issB.Lifetime = 7 * 24 * time.Hour
+			od := &OnDemandConfig{DecisionFunc: func(context.Context, string) error { return nil }}
+			cache, cfg := vNewCfg(st, []Issuer{issA, issB}, func(cf *Config, co *CacheOptions) {
+				cf.OnDemand = od
+				co.RenewCheckInterval = 100000 * time.Hour
+				co.OCSPCheckInterval = 100000 * time.Hour
+			})
+			defer cache.Stop()
+			hsQuietMaintenance(cache)
+			ctx := context.Background()
+			cur := hsMakeBundle(ca, name, "valid", false)
+			hsStoreBundle(st, issA.IssuerKey(), name, cur)
+			if _, err := cfg.CacheManagedCertificate(ctx, name); err != nil {
+				t.Fatal(err)
+			}
+			hsRevokeCached(cache, name, reason)
+			issA.Behave = func(int, []string) error { return ErrNoRetry{Err: fmt.Errorf("verif: first issuer refuses")} }
+			time.Sleep(time.Hour) // the replacement is issued later than the revoked certificate
+			cfg.GetCertificate(hsHello(name))
+			synctest.Wait()
+			time.Sleep(10 * time.Minute)
+			synctest.Wait()
+			replay := map[string]any{"reason": reason, "fallback_issuer_calls": len(issB.Calls())}
+			for _, c := range cache.getAllMatchingCerts(name) {
+				if c.Leaf != nil && c.Leaf.Equal(cur.leaf) {
+					o.Mon("C14 hs revoked-still-cached-after-replacement-by-fallback-issuer", replay)
+				}
+			}
+			cert, err := cfg.GetCertificate(hsHello(name))
+			if r := hsResult(cert, err, cur.leaf, nil, nil); r != "new" {
+				replay["result"] = r
+				o.Mon("C14 hs revoked-not-replaced", replay)
+			}
+			o.Stat("handshake_revoked_scenarios", 1)
+		})
+	}
 	for _, issuerOK := range []bool{true, false} {
 		for _, reason := range []int{acme.ReasonUnspecified, acme.ReasonKeyCompromise} {
 			synctest.Test(t, func(t *testing.T) {
